@@ -6,7 +6,8 @@ Model of `read_dimacs_from_file`, `has_loops`, `has_multiple_edges`, `has_non_po
 Two layers:
 * character level — what happens to every line buffer before it is looked at (`stripNewline`), and the
   glue that tokenises a well-formed line the way `sscanf("p %s %lu %lu")` / `sscanf("%c %d %d %lf")` do
-  (`classify`; executable, exercised by the correspondence, not reasoned about);
+  (`classify`; a hand-written tokenizer on `List Char`, exercised by the correspondence; Props/C10 proves
+  that it inverts a text renderer);
 * line level — the interpretation of the classified lines (`interp`), about which the round-trip theorem
   is stated.
 Weights are kept as exact decimals `mantissa / 10^exp` (the decimal → double rounding of `strtod` is trusted).
@@ -37,40 +38,66 @@ inductive DLine where
   | other                            -- anything else is skipped by the reader
 deriving Repr, DecidableEq
 
+/-! #### a hand-written tokenizer on `List Char` (easy to reason about; see `Parmcb/Lemmas/Dimacs.lean`) -/
+
+/-- split at every occurrence of `sep` (what `String.splitOn` does for a one-character separator) -/
+def splitCh (sep : Char) : List Char → List (List Char)
+  | [] => [[]]
+  | c :: cs =>
+    if c = sep then [] :: splitCh sep cs
+    else match splitCh sep cs with
+      | t :: ts => (c :: t) :: ts
+      | [] => [[c]]
+
+/-- the fields of a line: maximal runs of non-space characters -/
+def tokens (cs : List Char) : List (List Char) := (splitCh ' ' cs).filter fun t => !t.isEmpty
+
+/-- a non-empty string of decimal digits -/
+def parseNat (cs : List Char) : Option Nat :=
+  if !cs.isEmpty && cs.all Char.isDigit then some (Nat.ofDigitChars 10 cs 0) else none
+
+/-- decimal digits with an optional leading `-` (no `+`, as `String.toInt?`) -/
+def parseInt : List Char → Option Int
+  | '-' :: cs => (parseNat cs).map fun (n : Nat) => -(n : Int)
+  | cs => (parseNat cs).map fun (n : Nat) => (n : Int)
+
 /-- parse an (optionally signed, optionally fractional) decimal token -/
-def parseDec (s : String) : Option Dec :=
-  let neg := s.startsWith "-"
-  let body := if neg || s.startsWith "+" then (s.drop 1).toString else s
-  match body.splitOn "." with
-  | [i] => i.toNat?.map fun n => { mant := if neg then -(n : Int) else n, exp := 0 }
+def parseDec (cs : List Char) : Option Dec :=
+  let neg := cs.head? == some '-'
+  let body := if neg || cs.head? == some '+' then cs.drop 1 else cs
+  match splitCh '.' body with
+  | [i] => (parseNat i).map fun (n : Nat) => { mant := if neg then -(n : Int) else (n : Int), exp := 0 }
   | [i, f] =>
-    match (if i = "" then some 0 else i.toNat?), (if f = "" then some 0 else f.toNat?) with
+    match (if i.isEmpty then some 0 else parseNat i), (if f.isEmpty then some 0 else parseNat f) with
     | some a, some b =>
       let m : Int := (a * 10 ^ f.length + b : Nat)
       some { mant := if neg then -m else m, exp := f.length }
     | _, _ => none
   | _ => none
 
-/-- tokenisation glue for well-formed lines (after `stripNewline`) -/
-def classify (line : String) : DLine :=
-  match line.toList.head? with
-  | some 'c' | some '#' => .comment
-  | some 'p' =>
-    match (line.splitOn " ").filter (· ≠ "") with
-    | _ :: _ :: n :: _ => match n.toNat? with
+/-- `classify` on the characters of the line -/
+def classifyL (line : List Char) : DLine :=
+  match line with
+  | 'c' :: _ | '#' :: _ => .comment
+  | 'p' :: _ =>
+    match tokens line with
+    | _ :: _ :: n :: _ => match parseNat n with
       | some n => .problem n
       | none => .other
     | _ => .other
-  | some 'a' | some 'e' =>
-    match ((line.drop 1).toString.splitOn " ").filter (· ≠ "") with
-    | [u, v] => match u.toInt?, v.toInt? with
+  | 'a' :: rest | 'e' :: rest =>
+    match tokens rest with
+    | [u, v] => match parseInt u, parseInt v with
       | some u, some v => .edge u v Dec.one
       | _, _ => .other
-    | u :: v :: w :: _ => match u.toInt?, v.toInt?, parseDec w with
+    | u :: v :: w :: _ => match parseInt u, parseInt v, parseDec w with
       | some u, some v, some w => .edge u v w
       | _, _, _ => .other
     | _ => .other
   | _ => .other
+
+/-- tokenisation glue for well-formed lines (after `stripNewline`) -/
+def classify (line : String) : DLine := classifyL line.toList
 
 /-- the graph under construction: vertex count and edges (0-based endpoints, exact weight) in file order -/
 structure DGraph where
